@@ -32,7 +32,7 @@ _FINDINGS_VARIANT = _findings_variant(['apply_stack_effects', 'spec:handler_dept
 
 PROPS['C06'] = dict(
   level='proof',
-  verus=[dict(unit='peephole', min_functions=4), dict(unit='bytecode', min_functions=10), dict(unit='ops', min_functions=30), dict(unit='iterops', min_functions=2), dict(unit='mapops', min_functions=1), dict(unit='retops', min_functions=1), dict(unit='launchops', min_functions=1), dict(unit='narrowc', min_functions=4), dict(unit='limitsc', min_functions=3), dict(unit='pipeline', min_functions=1), _FINDINGS_VARIANT],
+  verus=[dict(unit='peephole', min_functions=4), dict(unit='bytecode', min_functions=10), dict(unit='ops', min_functions=30), dict(unit='iterops', min_functions=2), dict(unit='mapops', min_functions=1), dict(unit='retops', min_functions=1), dict(unit='launchops', min_functions=1), dict(unit='compilerd', min_functions=2), dict(unit='funcc', min_functions=1), dict(unit='narrowc', min_functions=4), dict(unit='limitsc', min_functions=3), dict(unit='pipeline', min_functions=1), _FINDINGS_VARIANT],
   not_decided=['O-06.9 constants/locals/captures/cache indices in range: carried by Compiler methods outside reach',
                'A-shape: labels unique and dense, jump direction (compiler output shape) — assumed BY NAME at the composition point of peephole_compile (pipeline unit), not scattered over callers',
                'A-fiber: push_frame/ensure_stack reserve max_slots above the arguments (raw-pointer code, unverified)',
@@ -57,7 +57,7 @@ PROPS['C04'] = dict(
 
 PROPS['C01'] = dict(
   level='proof',
-  verus=[dict(unit='ops', min_functions=20), dict(unit='native', min_functions=3), dict(unit='retops', min_functions=1), dict(unit='mapops', min_functions=1), dict(unit='iterops', min_functions=2), dict(unit='launchops', min_functions=1)],
+  verus=[dict(unit='ops', min_functions=20), dict(unit='native', min_functions=3), dict(unit='retops', min_functions=1), dict(unit='mapops', min_functions=1), dict(unit='iterops', min_functions=2), dict(unit='launchops', min_functions=1), dict(unit='funcc', min_functions=1), dict(unit='compilerd', min_functions=2)],
   kani=[dict(crate='front', harnesses=['proofs::o01_p_infix_table', 'proofs::o01_p_higher', 'proofs::o01_p_prefix_table'], kind='complete', assumption_ids=['A-kani']),
         dict(crate='value', harnesses=['proofs::o14_6_falsey', 'proofs::o14_3_num_eq_ieee'], features='', kind='complete', assumption_ids=['A-kani']),
         dict(crate='value', harnesses=['proofs::o14_6_falsey', 'proofs::o14_3_num_eq_ieee'], features='nan_boxing', kind='complete', assumption_ids=['A-kani'])],
@@ -67,20 +67,20 @@ PROPS['C01'] = dict(
 )
 PROPS['C02'] = dict(
   level='proof',
-  verus=[dict(unit='ops', min_functions=8), dict(unit='captures', min_functions=3), dict(unit='resolverd', min_functions=1), dict(unit='catchd', min_functions=1), dict(unit='limitsc', min_functions=2), dict(unit='resolvevar', min_functions=9), dict(unit='varcomp', min_functions=5), dict(unit='resolvestmt', min_functions=5)],
+  verus=[dict(unit='ops', min_functions=8), dict(unit='captures', min_functions=3), dict(unit='resolverd', min_functions=1), dict(unit='catchd', min_functions=1), dict(unit='limitsc', min_functions=2), dict(unit='resolvevar', min_functions=9), dict(unit='varcomp', min_functions=5), dict(unit='resolvestmt', min_functions=5), dict(unit='funcc', min_functions=1)],
   explanation='the VM half only: the box / capture handlers and op_closure; the resolver and compiler half of the capture protocol is outside reach',
   not_decided=['which variables the resolver marks as captured, which CaptureIndex operands the compiler emits (resolve_capture / add_capture), fresh variables per loop iteration / call as a COMPILER property (EmptyBox / Box placement), name resolution (innermost declaration)',
                'A-shape preconditions of the handlers: a Local operand names a frame slot that holds a box, an Enclosing operand an existing capture; A-enc: the capture operand decodes to what the encoder wrote'],
 )
 PROPS['C03'] = dict(
   level='proof',
-  verus=[dict(unit='ops', min_functions=10), dict(unit='peephole', min_functions=2), dict(unit='klass', min_functions=4), dict(unit='calls', min_functions=1), dict(unit='ncall', min_functions=1), dict(unit='propcomp', min_functions=9), dict(unit='fieldsc', min_functions=1)],
-  not_decided=['compile-time field numbering vs run-time Field order: emit_fields emits the Field instructions in the order find_known_field numbers them (fieldsc unit) and op_field / add_field give slots in arrival order (ops, klass); that the initialiser is compiled before emit_fields and the methods after (Compiler::class) is read, not proved, meta classes (meta_from_super), is_subclass (pointer recursion)',
+  verus=[dict(unit='ops', min_functions=10), dict(unit='peephole', min_functions=2), dict(unit='klass', min_functions=4), dict(unit='calls', min_functions=1), dict(unit='ncall', min_functions=1), dict(unit='propcomp', min_functions=9), dict(unit='fieldsc', min_functions=1), dict(unit='classc', min_functions=1)],
+  not_decided=['compile-time field numbering vs run-time Field order: emit_fields emits the Field instructions in the order find_known_field numbers them (fieldsc unit) and op_field / add_field give slots in arrival order (ops, klass); the initialiser is compiled before emit_fields and the methods after, with the new class current for exactly its members (classc unit), meta classes (meta_from_super), is_subclass (pointer recursion)',
                'A-heap: in the ops unit the class tables are abstract functions; that a field keeps its slot and a subclass extends its parent numbering is proved in the klass unit; A-slot'],
 )
 PROPS['C13'] = dict(
   level='proof',
-  verus=[dict(unit='ops', min_functions=12), dict(unit='klass', min_functions=4), dict(unit='cachetrace', min_functions=1), dict(unit='propcomp', min_functions=6), dict(unit='fieldsc', min_functions=1)],
+  verus=[dict(unit='ops', min_functions=12), dict(unit='klass', min_functions=4), dict(unit='cachetrace', min_functions=1), dict(unit='propcomp', min_functions=6), dict(unit='fieldsc', min_functions=1), dict(unit='classc', min_functions=1)],
   not_decided=['A-slot: every slot id in live code of a module is inside that module\'s cache and belongs to one site with one name (established by Vm::compile; false for REPL entries, see C19)',
                'A-classid: a class address identifies one class for as long as it sits in a cache: holds since fix ae3a806 made the caches roots (D21; the root-set obligation is in the gctrace unit, that InlineCache::trace reaches every entry in the cachetrace unit)'],
 )
